@@ -125,6 +125,20 @@ def norm(x, S=None, C=None):
     return '<%s>' % type(x).__name__
 
 
+def tt_name(x, r=None):
+    """stable description of a time thread (no addresses)"""
+    M, S, C = _mods()
+    if x is None:
+        return 'None'
+    if x is M.main.main_tt:
+        return 'the main thread'
+    if r is not None and x is r:
+        return 'the routine under test'
+    if isinstance(x, S.Routine):
+        return 'another routine'
+    return type(x).__name__
+
+
 def make_body(script, holder):
     """Build the real body function for ``script``; ``holder[0]`` is the
     routine made from it (set by the caller after construction)."""
@@ -282,9 +296,10 @@ def run_sequence(kind, ops, caller='main', clock='sys', seen=None):
         if now_tt is not tt:
             main.current_tt = tt                    # repair, then report
             fail('frame', 'C11.frame:%s-clobbers-current-tt' % family,
-                 repr(now_tt), repr(tt),
-                 'after %s the library\'s current thread is %r, it was %r '
-                 'before the call' % (opname, now_tt, tt))
+                 tt_name(now_tt, r), tt_name(tt, r),
+                 'after %s the library\'s current thread is %s, it was %s '
+                 'before the call' % (opname, tt_name(now_tt, r),
+                                      tt_name(tt, r)))
             return got
         if tt._seconds != sec:
             fail('time', 'C11.frame:%s-changes-caller-time' % family,
@@ -360,9 +375,9 @@ def run_sequence(kind, ops, caller='main', clock='sys', seen=None):
                     main.current_tt = main.main_tt
                     fail('frame',
                          'C11.frame:%s-clobbers-current-tt' % family,
-                         repr(bad), repr(main.main_tt),
-                         'after the scheduler ran, the current thread is %r, '
-                         'not the main thread' % (bad,))
+                         tt_name(bad, r), 'the main thread',
+                         'after the scheduler ran, the current thread is %s, '
+                         'not the main thread' % tt_name(bad, r))
             else:
                 raise ValueError(op)
             if ctx.viol is not None:
@@ -383,9 +398,9 @@ def run_sequence(kind, ops, caller='main', clock='sys', seen=None):
             main.current_tt = main.main_tt
             ctx.step = len(ops) - 1
             fail('frame', 'C11.frame:%s-clobbers-current-tt' % family,
-                 repr(bad), repr(main.main_tt),
+                 tt_name(bad, r), 'the main thread',
                  'after the calling routine returned the current thread is '
-                 '%r, not the main thread' % (bad,))
+                 '%s, not the main thread' % tt_name(bad, r))
     if main.current_tt is not main.main_tt:
         main.current_tt = main.main_tt
     return ctx.viol
